@@ -14,8 +14,9 @@ for d in sorted(glob.glob(V + '/seeded/*/meta.json')):
     else: hit += 1
     rows.append('| %s | %s | %s | %s |' % (m['id'], files, st, det.replace('|', '/')[:260]))
 txt = ('%d changes under `seeded/<id>/` (`patch.diff`, demonstration, `meta.json`); each compiles, leaves the per-case results of the five test\n'
-       'binaries unchanged, and its demonstration fails with the change and passes without.  Applied to `/repo` with `git apply`, checked with\n'
-       '`tools/seedtest`, reverted with `git checkout -- .`.  %d caught, %d superseded by a repair, %d missed.\n\n'
+       'binaries unchanged, and its demonstration fails with the change and passes without.  Round 1: applied to `/repo` with `git apply`, checked with\n'
+       '`tools/seedtest`, reverted with `git checkout -- .`; round 2: applied to a private copy of the working tree (`tools/seedtest2`, `VERIF_REPO`).\n'
+       '%d caught, %d superseded by a repair, %d missed.\n\n'
        '| seed | file | verdict | by which obligation / why not |\n|------|------|---------|------|\n' % (n, hit, sup, n - hit - sup)) + '\n'.join(rows) + \
       '\n\nEvery miss lies in a function that no unit covers, or in a clause the evidence lists as not decided — which is what "partial" in the claims means.'
 p = V + '/DESIGN.md'; s = open(p).read()
